@@ -36,6 +36,8 @@ INDEX — clause of properties.jsonl#C20.statement → theorem(s)
   * Duration ............................. `dur_exact_or_error` (only the quoted / whole text reaches the parser; exactness of the
                                            parser itself is relative to the hand-written model of `time.ParseDuration`)
   * SQL scanners ......................... `scan_exact_or_error`, `scan_refuses_unsupported`, `stamp_scan_exact_or_error`
+  * tex.ToString / MapVal2String / ToStringList on the integer kinds: `tostring_denotes`, `tostring_decodes_back_signed`,
+    `tostring_decodes_back_unsigned`, `tostring_is_marshal_text` (false of the `int(v)` shape: `witness_tostring_maxuint64`)
   * no panic on any JSON token ........... `panic_only_lone_quote`, `proved_panics_only_on_lone_quote`
   * false of the unrepaired code ......... `witness_*`, `not_exact_or_error_today`, `not_no_wrap_today`, `not_scan_exact_legacy`
 Only monitor-checked / correspondence-checked (no theorem):
@@ -267,6 +269,39 @@ theorem hex_parse_exact_u (base : Nat) (s : Bytes) (n : Nat) (h : parseUint base
     s ≠ [] ∧ BaseDigits base s ∧ baseVal base 0 s = n ∧ n < 2 ^ 64 :=
   parseUint_ok base 64 h
 
+/-! ### tex.ToString on the integer kinds (the text form the generic map paths produce for a wrapper value) -/
+
+/-- the exact shape prints the canonical decimal: it denotes the value … -/
+theorem tostring_denotes (v : Int) (hlo : -(2 ^ 63 : Int) ≤ v) (hhi : v < 2 ^ 64) : denotesCore (toStrNum .exact v) v := by
+  show denotesCore (fmtInt 10 v) v
+  unfold fmtInt
+  split
+  · rename_i hneg
+    have sp := fmtNat_spec 10 (by omega) (by omega) (-v).toNat (by omega)
+    have hd := (baseDigits10_iff _).1 sp.2.1
+    right; right
+    refine ⟨_, rfl, ⟨sp.1, hd⟩, ?_⟩
+    rw [← baseVal10_decVal _ hd, sp.2.2]; omega
+  · rename_i hpos
+    have sp := fmtNat_spec 10 (by omega) (by omega) v.toNat (by omega)
+    have hd := (baseDigits10_iff _).1 sp.2.1
+    left
+    refine ⟨⟨sp.1, hd⟩, ?_⟩
+    rw [← baseVal10_decVal _ hd, sp.2.2]; omega
+
+/-- … and decodes back: a signed value through `Atoi` (JsInt64 and the time wrappers), an unsigned one through `ParseUint` -/
+theorem tostring_decodes_back_signed (v : Int) (hlo : -(2 ^ 63 : Int) ≤ v) (hhi : v < 2 ^ 63) : atoi (toStrNum .exact v) = .ok v :=
+  parseInt_fmtInt 10 (by omega) (by omega) v hlo hhi
+
+theorem tostring_decodes_back_unsigned (n : Nat) (hn : n < 2 ^ 64) : parseUint 10 64 (toStrNum .exact (n : Int)) = .ok n := by
+  show parseUint 10 64 (fmtInt 10 (n : Int)) = .ok n
+  unfold fmtInt
+  rw [if_neg (by omega)]
+  simpa using parseUint_fmtNat 10 (by omega) (by omega) n hn
+
+/-- through the wrapper itself: quoting `ToString(v)` gives what `MarshalJSON` gives, so `UnmarshalJSON` returns `v` -/
+theorem tostring_is_marshal_text (v : Int) : (34 : Nat) :: (toStrNum .exact v ++ [34]) = encodeInt v := rfl
+
 /-! ### the time types on genuine instants (seconds, nanoseconds): the exact round-trip domain -/
 
 /-- JsNanoTime round-trips an instant **iff** its `UnixNano` fits int64 (1678-09-21 … 2262-04-11).
@@ -494,7 +529,7 @@ theorem proved_panics_only_on_lone_quote (c : Cfg) (hc : Proved c) (b : Bytes) :
   have hm := hc.2.2.2.2.2.2.2.2.2.2.2.2.2.2.2.2.2.2.2.2.2.2.2.2
   exact ⟨panic_only_lone_quote _ hc.1 hm.1 b, panic_only_lone_quote _ hc.2.1 hm.2.1 b,
     panic_only_lone_quote _ hc.2.2.2.1 hm.2.2.1 b, panic_only_lone_quote _ hc.2.2.2.2.1 hm.2.2.2.1 b,
-    panic_only_lone_quote _ hc.2.2.2.2.2.1 hm.2.2.2.2 b⟩
+    panic_only_lone_quote _ hc.2.2.2.2.2.1 hm.2.2.2.2.1 b⟩
 
 /-! ### non-vacuity -/
 
@@ -558,6 +593,20 @@ theorem witness_stamp_legacy_ignores : scanStamp .legacy 7 (.i64 5) = .ok 7 := b
 theorem not_scan_exact_legacy : ¬ (∀ v ts, scanInt .legacy v = .ok ts → sqlDenotes v ts) := by
   intro h
   exact absurd (h (.f64 5) 0 rfl) (by simp [sqlDenotes])
+
+/-- ToString through `int(v)`: MaxUint64 (as uint64 / uint / JsUInt64) is printed "-1" -/
+theorem witness_tostring_maxuint64 : toStrNum .viaInt (2 ^ 64 - 1) = [45, 49] := by decide
+theorem not_tostring_denotes_viaInt : ¬ (∀ v : Int, -(2 ^ 63 : Int) ≤ v → v < 2 ^ 64 → denotesCore (toStrNum .viaInt v) v) := by
+  intro h
+  have := h (2 ^ 64 - 1) (by decide) (by decide)
+  rw [witness_tostring_maxuint64] at this
+  rcases this with ⟨hd, _⟩ | ⟨t, ht, _⟩ | ⟨t, ht, hd, hv⟩
+  · have := hd.2 45 (by simp); omega
+  · simp at ht
+  · simp only [List.cons.injEq, true_and] at ht
+    subst ht
+    have : (decVal [49] : Int) = 1 := by decide
+    omega
 
 theorem not_denotes_123_2 : ¬ denotes [49, 50, 51] 2 := by
   intro h
